@@ -311,6 +311,12 @@ struct RunResult {
 }
 
 fn run_worker(dir: &Path, ops: &[&str], crash_at: Option<u64>, trace: Option<&Path>) -> RunResult {
+    run_worker_faulty(dir, ops, crash_at, None, trace)
+}
+
+/// `fail_at`: mutating call number k (a write) FAILS with ENOSPC instead of being performed; the
+/// worker lives on and runs the history to its end.
+fn run_worker_faulty(dir: &Path, ops: &[&str], crash_at: Option<u64>, fail_at: Option<u64>, trace: Option<&Path>) -> RunResult {
     let exe = std::env::current_exe().expect("exe");
     let ack = dir.join("ack.jsonl");
     let store_dir = dir.join("store");
@@ -336,6 +342,11 @@ fn run_worker(dir: &Path, ops: &[&str], crash_at: Option<u64>, trace: Option<&Pa
     }
     if let Some(t) = trace {
         cmd.env("RIPV_TRACE", t);
+    }
+    if let Some(k) = fail_at {
+        cmd.env("RIPV_FAIL_AT", k.to_string());
+    } else {
+        cmd.env_remove("RIPV_FAIL_AT");
     }
     let out = cmd.output().unwrap_or_else(|e| machinery_failure(&format!("spawn c05 worker: {e}")));
     let exit = out.status.code();
@@ -638,6 +649,118 @@ fn check_history(report: &Report, ops: &[&str]) {
             );
         }
     });
+}
+
+/// Environment answer "error" at system-call granularity (C01's clause, engine K's machinery): for
+/// every history and EVERY write call of it on a store path (log, sidecars, indexes, thread index,
+/// artifacts, snapshots), that one call fails with ENOSPC - nothing is written - and the
+/// authority lives on and runs the history to its end (operations may fail). Then the numbering
+/// clauses: a fresh log validates, every frame an operation acknowledged is there once, a
+/// restarted authority appends to every thread and the log validates again. (What the caches hold
+/// after a failed cache write is C04's business under a running authority; differences are
+/// counted here, not judged.)
+pub fn failed_write_sweep(report: &Report, prefix: &str) {
+    let tier = report.tier();
+    let alphabet: Vec<&'static str> = vec!["msg", "run", "side", "cursor", "ckpt", "auto", "branch", "handoff", "msg9k"];
+    let mut hists: Vec<Vec<&'static str>> = alphabet.iter().map(|a| vec![*a]).collect();
+    for a in &alphabet {
+        for b in ["msg", "ckpt", "branch"] {
+            hists.push(vec![*a, b]);
+            if tier == crate::common::Tier::Thorough {
+                hists.push(vec![b, *a, "msg"]);
+            }
+        }
+    }
+    hists.push(vec!["msg", "reopen", "msg"]);
+    hists.push(vec!["msg", "reopen", "ckpt", "msg"]);
+    report.set_extra("failed_write_histories", json!(hists.len()));
+    hists.par_iter().for_each(|ops| {
+        if report.over_cap() {
+            return;
+        }
+        let dir = scratch_dir("c05w");
+        let trace = dir.path().join("trace.txt");
+        let base = run_worker(dir.path(), ops, None, Some(&trace));
+        if base.exit != Some(0) {
+            machinery_failure("failed-write sweep: counting pass did not complete");
+        }
+        let trace_lines: Vec<String> = std::fs::read_to_string(&trace).unwrap_or_default().lines().map(|l| l.to_string()).collect();
+        drop(dir);
+        let writes: Vec<(u64, String)> = trace_lines
+            .iter()
+            .enumerate()
+            .filter_map(|(k, l)| {
+                let mut it = l.splitn(3, ' ');
+                let _ = it.next();
+                let op = it.next().unwrap_or("");
+                let path = it.next().unwrap_or("");
+                if op.starts_with("write") || op.starts_with("pwrite") {
+                    let file = Path::new(path).file_name().map(|f| f.to_string_lossy().to_string()).unwrap_or_default();
+                    let class = if file == "events.jsonl" {
+                        "events.jsonl".to_string()
+                    } else if file.len() > 36 {
+                        file.find('.').map(|i| format!("<id>{}", &file[i..])).unwrap_or_else(|| "<artifact>".into())
+                    } else {
+                        file
+                    };
+                    Some((k as u64, format!("{op} {class}")))
+                } else {
+                    None
+                }
+            })
+            .collect();
+        writes.par_iter().for_each(|(k, at)| {
+            if report.over_cap() {
+                return;
+            }
+            let dir = scratch_dir("c05f");
+            let res = run_worker_faulty(dir.path(), ops, None, Some(*k), None);
+            report.eval(Some(&("failed_write", ops, k)));
+            report.count("failed_write_points", 1);
+            if res.exit != Some(0) {
+                report.violation(&format!("{prefix}:authority_died_on_failed_write:{at}"), json!({"engine": "K", "harness": "c05.failed_writes", "ops": ops, "failed_call": k, "call": at}), &format!("history {ops:?}: write call #{k} ({at}) failed with ENOSPC and the process ended with {:?}", res.exit));
+                return;
+            }
+            let failed_ops = res.acks.iter().filter(|a| a["ok"] == json!(false)).count();
+            if failed_ops > 0 {
+                report.count("failed_write_points_at_which_an_operation_failed", 1);
+            }
+            for (sig, msg) in recover_and_check(&dir.path().join("store"), &res.acks) {
+                if sig.starts_with("recovered_cache_not_transparent") {
+                    report.count("info_cache_differences_after_a_failed_write", 1);
+                    continue;
+                }
+                // which stream's numbering broke (a thread's, a session's, a task's)
+                let stream = msg.split("for stream ").nth(1).and_then(|r| r.split('/').next()).map(|k| format!(":stream={k}")).unwrap_or_default();
+                report.violation(
+                    &format!("{prefix}:{sig}:failed[{at}]{stream}"),
+                    json!({"engine": "K", "harness": "c05.failed_writes", "ops": ops, "failed_call": k, "call": at}),
+                    &format!("history {ops:?}, write call #{k} ({at}) failed with ENOSPC (nothing written), the authority ran on: {msg}"),
+                );
+            }
+        });
+    });
+}
+
+/// Replay of one failed-write case (reported under `prefix`, i.e. by C01).
+pub fn replay_failed_write(report: &Report, case: &Value, prefix: &str) {
+    let ops_owned: Vec<String> = case["ops"].as_array().map(|a| a.iter().filter_map(|v| v.as_str().map(|s| s.to_string())).collect()).unwrap_or_default();
+    let ops: Vec<&str> = ops_owned.iter().map(|s| s.as_str()).collect();
+    let k = case["failed_call"].as_u64();
+    let dir = scratch_dir("c05r");
+    let res = run_worker_faulty(dir.path(), &ops, None, k, None);
+    report.eval(Some(&"replay"));
+    println!("worker exit {:?}, acks {:?}", res.exit, res.acks);
+    let fails: Vec<(String, String)> = recover_and_check(&dir.path().join("store"), &res.acks).into_iter().filter(|(s, _)| !s.starts_with("recovered_cache_not_transparent")).collect();
+    if fails.is_empty() && res.exit == Some(0) {
+        println!("replay: the numbering clauses hold");
+    }
+    if res.exit != Some(0) {
+        report.violation(&format!("{prefix}:authority_died_on_failed_write"), case.clone(), &format!("the process ended with {:?}", res.exit));
+    }
+    for (sig, msg) in fails {
+        report.violation(&format!("{prefix}:{sig}:failed_write"), case.clone(), &msg);
+    }
 }
 
 pub fn replay(report: &Report, case: &Value) {
